@@ -115,6 +115,10 @@ type Target struct {
 	// the target without a reply to it (the request is logged, not executed);
 	// every other connection lives on — a dropped connection, not a crash.
 	DropAt map[int]bool
+	// LoseReplyAt (opt-in, C14): request #idx is EXECUTED (an EXEC applies its transaction), then the
+	// connection that sent it is closed by the target without the reply - a reply lost on the way
+	// (connection reset / timeout between EXEC and its answer). A replay of the log applies the request.
+	LoseReplyAt map[int]bool
 	// XGroupKey (opt-in, C20): XGROUP <sub> <key> … is filed under its key (the
 	// second argument) instead of under the generic "first argument".
 	XGroupKey bool
@@ -800,8 +804,9 @@ func (t *Target) request(connID int, args [][]byte) (reply, bool) {
 		t.mu.Lock()
 	}
 	r := t.handle(c, args, fail)
+	lose := t.LoseReplyAt[idx]
 	t.mu.Unlock()
-	return r, false
+	return r, lose
 }
 
 // Replay builds a fresh target whose state is the result of the given request
